@@ -336,6 +336,54 @@ func closeDecision(r *Report, f *ssa.Function, only string) {
 	}
 }
 
+// warningQuoted: proxyutil.Warning puts the error text into the header quoted
+// (shared by C01.R4 and C02.R4).
+func warningQuoted(r *Report, wf *ssa.Function) {
+	w := r.W
+	// the error text goes into the header quoted: a message with a line break or
+	// another control character (a MultiError lists its parts on separate lines)
+	// must not become an invalid header value that the transport refuses to send
+	quoted := false
+	var at token.Pos = wf.Pos()
+	for _, c := range plainCalls(wf, "fmt.Sprintf") {
+		format, isC := constString(c.Call.Args[0])
+		if !isC {
+			continue
+		}
+		var verbs []byte
+		for i := 0; i+1 < len(format); i++ {
+			if format[i] == '%' {
+				if format[i+1] != '%' {
+					verbs = append(verbs, format[i+1])
+				}
+				i++
+			}
+		}
+		ops := concatOperands(c)
+		for k, o := range ops {
+			isErrText := anyIn(w.backSlice(o, flowOpt{}), func(x ssa.Value) bool {
+				cc, y := x.(*ssa.Call)
+				return y && cc.Call.IsInvoke() && cc.Call.Method.Name() == "Error"
+			})
+			if isErrText && len(ops) == len(verbs) {
+				at = c.Pos()
+				quoted = verbs[k] == 'q' || anyIn(w.backSlice(o, flowOpt{}), func(x ssa.Value) bool { return isCallValue(x, "strconv.Quote", "strconv.QuoteToASCII") })
+			}
+		}
+	}
+	if !quoted {
+		for _, c := range plainCalls(wf, "strconv.Quote", "strconv.QuoteToASCII") {
+			if anyIn(w.backSlice(c.Call.Args[0], flowOpt{}), func(x ssa.Value) bool {
+				cc, y := x.(*ssa.Call)
+				return y && cc.Call.IsInvoke() && cc.Call.Method.Name() == "Error"
+			}) {
+				quoted = true
+			}
+		}
+	}
+	r.Decide("table", "M/proxyutil.Warning quotes the error text", quoted, "the error text is formatted with %q / strconv.Quote", "the error text is put into the Warning header as it is: an error message containing a line break makes the header invalid, the transport refuses the request, and a modifier error aborts the exchange instead of being surfaced", at)
+}
+
 func c01(r *Report) {
 	w := r.W
 	r.Decline("byte identity of bodies and header values (delegated to net/http ReadRequest / Transport / Response.Write)")
@@ -577,6 +625,7 @@ func c01(r *Report) {
 				}
 			}
 			r.Decide("table", "M/proxyutil.Warning adds only the Warning header", okw && n == 1, "single Header.Add(\"Warning\", …)", "proxyutil.Warning edits something other than adding a Warning header", wf.Pos())
+			warningQuoted(r, wf)
 		}
 	})
 
